@@ -21,6 +21,10 @@ from contracts import krige_common as kc
 from contracts.krige_common import lemma, quiet, arr, dot, delta, terms
 
 P = "C05"
+# symbolic branch points: none on the unchanged tree except the coincidence window of cov_nugget in the
+# fork instances of the right-hand-side contract (<= 4 paths); a job that needs more paths is a checker
+# error after MAXP paths instead of an exponential exploration (each window fork costs seconds)
+MAXP, MAXP_FORK = 2, 6
 BND = "n<=3 conditioning points, t<=2 targets, dim<=2 (3 in the thorough tier), <=2 functional and <=1 external " \
       "drifts; all values (model parameters, positions, data, errors, drift values) unbounded"
 
@@ -124,7 +128,7 @@ def _matrix_obligations(ctx, S, prefix=""):
 
 
 @contract(P, "Krige._get_krige_mat/textbook-kriging-matrix", params=_mat_params(), functions=FN_MAT,
-          bounded=BND, nsamples=2, search=40)
+          bounded=BND, nsamples=2, search=40, max_paths=MAXP)
 @kc.guarded
 def krige_mat(ctx, variant, n, dim, err):
     kc.reset()
@@ -134,7 +138,7 @@ def krige_mat(ctx, variant, n, dim, err):
 
 
 @contract(P, "Krige._get_krige_mat/textbook-kriging-matrix(dim3)", params=_mat_params(True), functions=FN_MAT,
-          bounded=BND, nsamples=2, search=40, tiers=("thorough",))
+          bounded=BND, nsamples=2, search=40, tiers=("thorough",), max_paths=MAXP)
 @kc.guarded
 def krige_mat3(ctx, variant, n, dim, err):
     kc.reset()
@@ -152,7 +156,7 @@ def _my_inverse(mat):
                   {"pseudo_inv": False, "kind": "pinv"}, {"pseudo_inv": False, "kind": "pinvh"},
                   {"pseudo_inv": True, "kind": "callable"}, {"pseudo_inv": False, "kind": "callable"}],
           functions=["krige/base.py:Krige._inv", "krige/base.py:Krige.pseudo_inv_type"], bounded=BND, nsamples=2,
-          search=40)
+          search=40, max_paths=MAXP)
 @kc.guarded
 def inv_routine(ctx, pseudo_inv, kind):
     """pseudo_inv=True: the selected pseudo-inverse (pinv: SVD, pinvh: eigenvalues, or the user's
@@ -295,14 +299,14 @@ def _rhs_body(ctx, variant, n, t, dim, exact):
 
 
 @contract(P, "Krige._get_krige_vecs/textbook-right-hand-side", params=_rhs_params(), functions=FN_VEC, bounded=BND,
-          nsamples=2, search=40)
+          nsamples=2, search=40, max_paths=MAXP_FORK)
 @kc.guarded
 def krige_vecs(ctx, variant, n, t, dim, exact):
     _rhs_body(ctx, variant, n, t, dim, exact)
 
 
 @contract(P, "Krige._get_krige_vecs/textbook-right-hand-side(dim3)", params=_rhs_params(True), functions=FN_VEC,
-          bounded=BND, nsamples=2, search=40, tiers=("thorough",))
+          bounded=BND, nsamples=2, search=40, tiers=("thorough",), max_paths=MAXP_FORK)
 @kc.guarded
 def krige_vecs3(ctx, variant, n, t, dim, exact):
     _rhs_body(ctx, variant, n, t, dim, exact)
@@ -321,7 +325,7 @@ COND_PARAMS = [{"variant": v, "norm": nk, "mean": mk, "trend": tk, "dim": d}
 
 @contract(P, "Krige._krige_cond/normalize(value-trend)-mean,zero-padded", params=COND_PARAMS,
           functions=["krige/base.py:Krige._krige_cond", "krige/base.py:Krige.cond_mean",
-                     "krige/base.py:Krige.cond_trend", "tools/misc.py:eval_func"], bounded=BND, nsamples=2, search=40)
+                     "krige/base.py:Krige.cond_trend", "tools/misc.py:eval_func"], bounded=BND, nsamples=2, search=40, max_paths=MAXP)
 @kc.guarded
 def krige_cond(ctx, variant, norm, mean, trend, dim):
     kc.reset()
@@ -445,14 +449,14 @@ def _call_body(ctx, variant, n, t, dim, err):
 
 
 @contract(P, "Krige.__call__/estimate-and-variance", params=_call_params(), functions=FN_CALL, bounded=BND,
-          nsamples=2, search=40)
+          nsamples=2, search=40, max_paths=MAXP)
 @kc.guarded
 def krige_call(ctx, variant, n, t, dim, err):
     _call_body(ctx, variant, n, t, dim, err)
 
 
 @contract(P, "Krige.__call__/estimate-and-variance(dim3)", params=_call_params(True), functions=FN_CALL,
-          bounded=BND, nsamples=2, search=40, tiers=("thorough",))
+          bounded=BND, nsamples=2, search=40, tiers=("thorough",), max_paths=MAXP)
 @kc.guarded
 def krige_call3(ctx, variant, n, t, dim, err):
     _call_body(ctx, variant, n, t, dim, err)
@@ -461,7 +465,7 @@ def krige_call3(ctx, variant, n, t, dim, err):
 @contract(P, "Krige.__call__/structured=unstructured-on-grid,target-order",
           params=[{"variant": v, "dim": d} for v in ("simple", "ordinary", "universal", "extdrift") for d in (1, 2)],
           functions=FN_CALL + ["tools/geometric.py:generate_grid", "tools/geometric.py:format_struct_pos_dim"],
-          bounded=BND + "; grids 2 (dim 1) and 2 x 1 (dim 2) points", nsamples=2, search=40)
+          bounded=BND + "; grids 2 (dim 1) and 2 x 1 (dim 2) points", nsamples=2, search=40, max_paths=MAXP)
 @kc.guarded
 def krige_mesh(ctx, variant, dim):
     kc.reset()
@@ -498,7 +502,7 @@ def krige_mesh(ctx, variant, dim):
           params=[{"variant": v, "norm": nk} for v in ("simple", "ordinary", "universal", "extdrift", "detrended")
                   for nk in ("none", "generic") if not (v == "detrended" and nk != "none")],
           functions=["krige/base.py:Krige.get_mean", "krige/base.py:Krige.__call__", "krige/base.py:Krige.has_const_mean"]
-          + FN_VEC, bounded=BND, nsamples=2, search=40)
+          + FN_VEC, bounded=BND, nsamples=2, search=40, max_paths=MAXP)
 @kc.guarded
 def krige_mean(ctx, variant, norm):
     """kriging the mean (Wackernagel 2003, ch. 4 / 'Kriging the Mean'): the covariances of the
@@ -570,7 +574,7 @@ def _cons_params():
 
 
 @contract(P, "kriging-system/estimate=direct-solution,unbiasedness", params=_cons_params(), functions=FN_CALL + FN_MAT,
-          bounded=BND, nsamples=2, search=40, timeout=20)
+          bounded=BND, nsamples=2, search=40, timeout=20, max_paths=MAXP)
 @kc.guarded
 def consequences(ctx, variant, n, dim):
     kc.reset()
@@ -630,7 +634,7 @@ def consequences(ctx, variant, n, dim):
 
 @contract(P, "kriging-system/linear-in-data", params=[{"variant": v, "dim": d} for v in ALLV for d in (1, 2)
                                                       if kc.min_points(v, d) <= 3],
-          functions=FN_CALL, bounded=BND, nsamples=2, search=40)
+          functions=FN_CALL, bounded=BND, nsamples=2, search=40, max_paths=MAXP)
 @kc.guarded
 def linearity(ctx, variant, dim):
     """three set-ups that differ only in the data: a, b and alpha a + beta b (no normalizer, mean or
@@ -671,7 +675,7 @@ def linearity(ctx, variant, dim):
                                                                     for v in ("simple", "ordinary", "extdrift", "universal")
                                                                     for n in (2, 3) if n >= kc.min_points(v, 1)],
           functions=FN_CALL + FN_MAT, bounded=BND + "; one transposition (first and last point)", nsamples=2, search=40,
-          timeout=20)
+          timeout=20, max_paths=MAXP)
 @kc.guarded
 def cond_order(ctx, variant, n, dim):
     """swapping two conditioning points (with their values, errors and drift values) permutes A, k
@@ -725,7 +729,7 @@ def cond_order(ctx, variant, n, dim):
 @contract(P, "Krige.model.setter/estimate=fresh-Krige-with-new-model",
           params=[{"variant": v, "how": h} for v in ("simple", "ordinary") for h in ("reassign", "reassign+set_condition")],
           functions=["field/base.py:Field.model", "krige/base.py:Krige.set_condition", "krige/base.py:Krige.__call__"],
-          bounded=BND, nsamples=3, search=40, timeout=10)
+          bounded=BND, nsamples=3, search=40, timeout=10, max_paths=MAXP)
 @kc.guarded
 def model_reassign(ctx, variant, how):
     """results equal the direct solution with the covariance of the model the object HAS: after
